@@ -238,7 +238,7 @@ class Ctx:
         @given(strategy)
         def test(case):
             if ctx.out_of_budget():
-                return
+                raise _BudgetStop  # ends the Hypothesis run (no shrink phase is enabled); caught below
             fails = run_check(check_case, case)
             if describe is not None:
                 key, classes, sample = describe(case)
@@ -248,7 +248,33 @@ class Ctx:
             for f in fails:
                 ctx.fail(f, case)
 
-        test()
+        try:
+            test()
+        except _BudgetStop:
+            pass
+        except BaseException as exc:  # noqa: BLE001
+            # Hypothesis may wrap the stop signal (e.g. in a Flaky/exception group) when it replays the last example
+            if not _contains_budget_stop(exc):
+                raise
+
+
+class _BudgetStop(BaseException):
+    """Raised inside a Hypothesis test when the shard's wall budget is used up (never a verdict)."""
+
+
+def _contains_budget_stop(exc: BaseException) -> bool:
+    seen = set()
+    stack = [exc]
+    while stack:
+        e = stack.pop()
+        if id(e) in seen or e is None:
+            continue
+        seen.add(id(e))
+        if isinstance(e, _BudgetStop):
+            return True
+        stack += [e.__cause__, e.__context__]
+        stack += list(getattr(e, "exceptions", ()) or ())
+    return False
 
 
 def run_check(check_case: Callable[[Any], list[Fail]], case: Any) -> list[Fail]:
